@@ -598,18 +598,23 @@ def constant_aliases(fn: ast.AST) -> dict[str, ast.expr]:
             nested_bound |= set(n.names)
         if isinstance(n, ast.Name) and isinstance(n.ctx, (ast.Store, ast.Del)):
             stores[n.id] = stores.get(n.id, 0) + 1
-    for st in fn.body:  # type: ignore[attr-defined]
+    for st in _walk_own(fn):
+        if not isinstance(st, (ast.Assign, ast.AnnAssign)):
+            continue
         tg = st.targets[0] if isinstance(st, ast.Assign) and len(st.targets) == 1 else st.target if isinstance(st, ast.AnnAssign) else None
         v = getattr(st, 'value', None)
-        if isinstance(tg, ast.Name) and isinstance(v, ast.Attribute) and _dotted_chain(v) and v.attr.isupper():
+        base = v.value if isinstance(v, ast.Subscript) and isinstance(v.slice, ast.Constant) and isinstance(v.slice.value, int) else v
+        if isinstance(tg, ast.Name) and isinstance(base, ast.Attribute) and _dotted_chain(base) and base.attr.isupper():
             cands[tg.id] = v
     local = set(stores) | params
     out = {}
     for nm, v in cands.items():
-        root = v
+        root = v.value if isinstance(v, ast.Subscript) else v
         while isinstance(root, ast.Attribute):
             root = root.value
-        if stores.get(nm) == 1 and nm not in params and nm not in nested_bound and root.id not in local:  # type: ignore[attr-defined]
+        # a constant of the class read through the instance (self.LIMIT) is as constant as Class.LIMIT
+        outside = root.id not in local or root.id in ('self', 'cls')  # type: ignore[attr-defined]
+        if stores.get(nm) == 1 and nm not in params and nm not in nested_bound and outside:
             out[nm] = v
     return out
 
@@ -649,7 +654,7 @@ def tuple_assigns(model) -> list[str]:  # noqa: ANN001
         if isinstance(fi.node, ast.Lambda):
             continue
         for st in _walk_own(fi.node):
-            if isinstance(st, ast.Assign) and len(st.targets) == 1 and isinstance(st.targets[0], ast.Tuple) and isinstance(st.value, ast.Tuple):
+            if isinstance(st, ast.Assign) and len(st.targets) == 1 and isinstance(st.targets[0], ast.Tuple) and isinstance(st.value, (ast.Tuple, ast.Attribute)):
                 out.append('%s\t%s' % (q.split('#')[0], ast.unparse(st)))
     return sorted(set(out))
 
@@ -681,6 +686,15 @@ def split_tuple_assigns(model) -> int:  # noqa: ANN001
             if isinstance(st, ast.Try):
                 for h in st.handlers:
                     h.body = split(h.body)
+            if isinstance(st, ast.Assign) and len(st.targets) == 1 and isinstance(st.targets[0], ast.Tuple) and isinstance(st.value, ast.Attribute) and _dotted_chain(st.value) and st.value.attr.isupper() and all(isinstance(x, ast.Name) for x in st.targets[0].elts) and '%s\t%s' % (current[0], ast.unparse(st)) not in known:
+                # `code, subcode = self.OPEN_WAIT_EXPIRED`: the members of a named constant, one by one
+                for k_, t_ in enumerate(st.targets[0].elts):
+                    a = ast.Assign(targets=[t_], value=ast.Subscript(value=copy.deepcopy(st.value), slice=ast.Constant(k_), ctx=ast.Load()), type_comment=None)
+                    ast.copy_location(a, st)
+                    ast.fix_missing_locations(a)
+                    out.append(a)
+                n += 1
+                continue
             if isinstance(st, ast.Assign) and len(st.targets) == 1 and isinstance(st.targets[0], ast.Tuple) and isinstance(st.value, ast.Tuple) and len(st.targets[0].elts) == len(st.value.elts) and not any(isinstance(x, ast.Starred) for x in st.targets[0].elts + st.value.elts):
                 tgs, vals = st.targets[0].elts, st.value.elts
                 safe = all(ast.unparse(tgs[i]) not in reads(vals[j]) and not any(ast.unparse(tgs[i]) == r or r.startswith(ast.unparse(tgs[i]) + '.') or r.startswith(ast.unparse(tgs[i]) + '[') for r in reads(vals[j])) for i in range(len(tgs)) for j in range(i + 1, len(tgs)))
